@@ -23,7 +23,9 @@ MANIFEST = dict(
          'regenerated from src/nunavut on every run and proved admissible by vm_compute: every memoisation site is keyed by the identity '
          'of self and by-value arguments (and no caller modifies a memoised value), every store on a long-lived object that is '
          'reachable from rendering is reset per file / overwritten per generate_all / a memo of a pure function, every unique-name '
-         'filter runs at render time (C++ excepted: F-CPP-UNIQ-FOLD). C10_file_indep: PREMISES class forest, admissible site table (the '
+         'filter runs at render time, every object bound at module/class scope (literal containers and results of calls, i.e. '
+         'instances) is never written nor handed to code that could keep it (or is reviewed), every keyword argument of the bundled '
+         'jinja2 Environment constructor is an allow-listed per-environment value. C10_file_indep: PREMISES class forest, admissible site table (the '
          'model looks memo keys up through it), admissible store table (the model\'s per-file step consults it), and the named '
          'premise render_pure (which program a template is does not depend on process state); conclusion: same effective '
          'configuration + template listing + constructed processors + type => same template and same bytes in any two histories. '
@@ -37,7 +39,9 @@ MANIFEST = dict(
          'pydsdl hierarchy with markers, written from random scripts: exact bytes and selected template; built-in c/cpp/py/html '
          'templates: byte comparison against new-interpreter references, line skeletons through the model) over whole namespace / '
          'dependency-closed subsets / permuted order / second runs / other-option generators / cleared caches / a REDEFINED variant '
-         'of the namespace / every type rendered first / ONE generator called repeatedly with different per-call arguments.',
+         'of the namespace / every type rendered first / ONE generator called repeatedly with different per-call arguments / earlier '
+         'runs in the same interpreter with OTHER option sets (trim_blocks, lstrip_blocks, target language, post-processor list, user '
+         'template directory, language options).',
     note='Trusted: Coq kernel; T2 translators (pyfun_tr.py, gen_c10.py); extraction (ExtrOcamlBasic only) + ocaml/c10_driver.ml; '
          'render_pure is a named premise of the theorems, backed outside Coq by the scanned inventories and tested by the byte '
          'comparison of real runs; the store scanner\'s render-phase reachability is a name-based over-approximate call graph. Namespace (__init__/index) files '
@@ -418,8 +422,11 @@ class Hist:
 
     def new(self, cfg: int, subset=None, pps=None, variant: str = 'v1', lctx_of: typing.Optional[int] = None) -> int:
         c = self.cfgs[cfg]
+        if pps is None:
+            pps = c.get('pps')
         self.steps.append({'op': 'new', 'gen': 'g%d' % len(self.gens), 'lang': c['lang'], 'lang_opts': c.get('lang_opts'),
-                           'templates': c.get('templates'), 'pps': pps, 'subset': subset, 'variant': variant,
+                           'templates': c.get('templates'), 'pps': pps, 'subset': subset, 'variant': variant, 'lang_cfg': c.get('lang_cfg'),
+                           'trim_blocks': c.get('trim'), 'lstrip_blocks': c.get('lstrip'),
                            'lctx_of': None if lctx_of is None else 'g%d' % lctx_of})
         self.gens.append({'cfg': cfg, 'subset': subset if subset is not None else list(self.sp.order), 'step': len(self.steps) - 1,
                           'prefix': '' if variant == 'v1' else variant + ':'})
@@ -451,6 +458,13 @@ class Hist:
             roots['v2'] = self.sp.v2.materialise()
         return {'root': self.sp.root, 'dsdl': self.sp.files, 'dsdl_roots': roots, 'steps': self.steps,
                 'hashseed': self.hashseed, 'name': self.name}
+
+
+def cfg_sig(c: dict) -> str:
+    """what 'the same templates and options' means for the built-in comparisons: target language, language options, white-space
+    control flags of the template environment, explicit post-processor list, user template set"""
+    return json.dumps([c['lang'], c.get('lang_opts'), c.get('lang_cfg'), bool(c.get('trim')), bool(c.get('lstrip')), c.get('pps'),
+                       sorted((c.get('templates') or {}).items())], sort_keys=True)
 
 
 def gen_template_set(rng) -> typing.List[str]:
@@ -526,9 +540,19 @@ def gen_script(rng, tid: str) -> list:
     return items
 
 
-def concretise_args(script: list, args: int) -> list:
-    """script items that print the per-call arguments of generate_all become text"""
-    return [['t', str(bool(args & 1))] if it[0] == 'omit' else ['t', str(bool(args & 2))] if it[0] == 'audit' else it for it in script]
+def concretise_args(script: list, args: int, trim: bool = False, lstrip: bool = False) -> list:
+    """script items that print the per-call arguments of generate_all become text; the white-space control flags of the
+    environment act on the text next to the block tags that enclose a type's script ({% if/elif .. %}<script>{% elif/endif %}):
+    trim_blocks removes a newline directly after the opening tag, lstrip_blocks removes blanks between the last newline and
+    the closing tag"""
+    out = [['t', str(bool(args & 1))] if it[0] == 'omit' else ['t', str(bool(args & 2))] if it[0] == 'audit' else list(it) for it in script]
+    if trim and out and out[0][0] == 't' and out[0][1].startswith('\n'):
+        out[0] = ['t', out[0][1][1:]]
+    if lstrip and out and out[-1][0] == 't':
+        m = re.search(r'\n[ \t]*\Z', out[-1][1])
+        if m:
+            out[-1] = ['t', out[-1][1][:m.start() + 1]]
+    return out
 
 
 def concrete_script(script: list, tid: str) -> list:
@@ -571,7 +595,8 @@ def gen_script_history(rng, idx: int) -> Hist:
     for c in range(ncfg):
         lang = rng.choice(LANGS) if idx % 3 else rng.choice(['c', 'cpp'])
         scripts = {t: gen_script(rng, t) for t in sp.order}
-        h.cfgs[c + 1] = {'lang': lang, 'templates': script_templates(sp, scripts, lang, names=gen_template_set(rng)),
+        h.cfgs[c + 1] = {'lang': lang, 'trim': rng.random() < 0.3, 'lstrip': rng.random() < 0.3,
+                         'templates': script_templates(sp, scripts, lang, names=gen_template_set(rng)),
                          'scripts': {t: concrete_script(s, t) for t, s in scripts.items()}}
     for _ in range(rng.randrange(1, 4)):
         cfg = rng.randrange(1, ncfg + 1)
@@ -694,6 +719,34 @@ def gen_builtin_histories(rng, lang: str, sp: Space, tier: str) -> typing.List[H
         gt = h.new(1, sp.closure([t]))
         h.run(gt, perm={'first': t})
     out.append(h)
+    # EARLIER RUNS WITH OTHER OPTION SETS in the same interpreter: other white-space control flags of the template environment,
+    # another target language, another post-processor list, a user template directory, other language options -- each with its own
+    # language context and generator -- and then the configurations under test; references: new interpreters
+    other = {'c': 'py', 'cpp': 'c', 'py': 'cpp', 'html': 'c'}[lang]
+    ao = Hist('builtin-%s-afteropts' % lang, sp, 'builtin')
+    ao.hashseed = rng.randrange(0, 1000)
+    ao.cfgs = dict(h.cfgs)
+    ao.cfgs[5] = {'lang': lang, 'lang_opts': None, 'trim': True, 'lstrip': True}
+    ao.cfgs[6] = {'lang': lang, 'lang_opts': None, 'trim': True, 'lstrip': False}
+    ao.cfgs[7] = {'lang': other, 'lang_opts': None}
+    ao.cfgs[8] = {'lang': lang, 'lang_opts': None, 'pps': [['limit', 3]] if lang in ('c', 'cpp') else [['trim'], ['limit', 2]]}
+    ao.cfgs[9] = {'lang': lang, 'lang_opts': None,
+                  'templates': {n + '.j2': '<' + n + '>{{ T.full_name }}\n' for n in ('Any', 'Namespace')}}
+    # other CONFIGURATIONS of the target language (what a --configuration yaml sets): project-specific reserved identifiers that are
+    # field / constant / type names of the namespace, other stropping prefix and suffix
+    ao.cfgs[10] = {'lang': lang, 'lang_opts': None,
+                   'lang_cfg': {'reserved_identifiers': ['a', 'b', 'x', 'v', 'f', 'part', 'tail', 'KONST', 'K', 'mid', 'leaf', 'Prim', 'Top']}}
+    ao.cfgs[11] = {'lang': lang, 'lang_opts': None, 'lang_cfg': {'stropping_prefix': 'zq_', 'stropping_suffix': '_qz'}}
+    for c, kw in ((10, {}), (5, {}), (7, {}), (8, {}), (11, {}), (9, {}), (2, {}), (1, {'perm': rng.randrange(1, 1000)}), (5, {'perm': 'rev'}),
+                  (6, {}), (10, {'perm': 'rev'}), (1, {})):
+        ao.run(ao.new(c), chunks=True, **kw)
+    h.cfgs.update({k: v for k, v in ao.cfgs.items() if k not in h.cfgs})
+    out.append(ao)
+    f5 = Hist('builtin-%s-fresh-cfg5' % lang, sp, 'builtin')
+    f5.hashseed = rng.randrange(0, 1000)
+    f5.cfgs = ao.cfgs
+    f5.run(f5.new(5), chunks=True)
+    out.append(f5)
     # references for the per-call arguments: a new interpreter, a new generator, called once with those arguments
     for a in ([1, 2] if tier == 'quick' else [1, 2, 3]):
         fa = Hist('builtin-%s-fresh-args%d' % (lang, a), sp, 'builtin')
@@ -902,11 +955,10 @@ def main(chk: core.Check, replay: typing.Optional[str] = None) -> int:
         entries, ops, errs = line_up(h, r['out'])
         lined.append((entries, ops, errs))
         if h.kind == 'builtin':
-            lang = h.cfgs[1]['lang']
-            fresh = 'fresh' in h.name
+            fresh = 'fresh' in h.name or 'reversed' in h.name
             for e in entries:
                 if e['chunks'] is not None:
-                    k = (lang, e['ecfg'], e['mkey'])
+                    k = (cfg_sig(h.cfgs[e['cfg']]), e['args'], e['mkey'])
                     if fresh or k not in builtin_chunks:
                         builtin_chunks[k] = e['chunks']
     r_forest = {id(h): r.get('forest', {}) for h, r in zip(hists, results)}
@@ -922,9 +974,9 @@ def main(chk: core.Check, replay: typing.Optional[str] = None) -> int:
           for a in used_args:
             for t in h.mkeys():
                 if h.kind == 'script':
-                    tables[(c * 16 + a, t)] = concretise_args(v['scripts'][t], a)
+                    tables[(c * 16 + a, t)] = concretise_args(v['scripts'][t], a, bool(v.get('trim')), bool(v.get('lstrip')))
                 else:
-                    ch = builtin_chunks.get((v['lang'], c * 16 + a, t))
+                    ch = builtin_chunks.get((cfg_sig(v), a, t))
                     if ch is not None:
                         tables[(c * 16 + a, t)] = [['t', skel(canon(v['lang'], ''.join(ch)))]]
         cls_of = {e['mkey']: e['cls'] for e in entries if e.get('cls')}
@@ -940,11 +992,11 @@ def main(chk: core.Check, replay: typing.Optional[str] = None) -> int:
     for h, (entries, ops, errs) in zip(hists, lined):
         if h.kind == 'builtin' and 'fresh' in h.name and entries and not errs:
             e = entries[0]
-            alone_builtin.setdefault((h.cfgs[e['cfg']]['lang'], e['ecfg'], e['mkey']), (e['text'], h.name + ' (first file of a new interpreter)'))
+            alone_builtin.setdefault((cfg_sig(h.cfgs[e['cfg']]), e['args'], e['mkey']), (e['text'], h.name + ' (first file of a new interpreter)'))
     for h, (entries, ops, errs) in zip(hists, lined):       # then: any file of a new interpreter that generated one namespace once
-        if h.kind == 'builtin' and 'fresh' in h.name and not errs:
+        if h.kind == 'builtin' and ('fresh' in h.name or 'reversed' in h.name) and not errs:
             for e in entries:
-                alone_builtin.setdefault((h.cfgs[e['cfg']]['lang'], e['ecfg'], e['mkey']), (e['text'], h.name + ' (new interpreter)'))
+                alone_builtin.setdefault((cfg_sig(h.cfgs[e['cfg']]), e['args'], e['mkey']), (e['text'], h.name + ' (new interpreter)'))
     for h, (entries, ops, errs), m in zip(hists, lined, models):
         if h.kind == 'probe':
             continue
@@ -979,12 +1031,13 @@ def main(chk: core.Check, replay: typing.Optional[str] = None) -> int:
                 prev_by_gen[e['gid']] = [True]          # from now on a later file of this generator may meet a non-zero counter
             # --- the property oracle
             if h.kind == 'script':
-                script = concretise_args(h.cfgs[e['cfg']]['scripts'][e['key']], e['args'])
+                cc = h.cfgs[e['cfg']]
+                script = concretise_args(cc['scripts'][e['key']], e['args'], bool(cc.get('trim')), bool(cc.get('lstrip')))
                 sel = oracle_select(e['cls'], e['tset'])
                 expect = alone_oracle(script_text(script, lang, '<%s>' % (sel or '')), e['pps'])
                 uses_uniq = any(it[0] == 'u' for it in script)
             else:
-                k = (lang, e['ecfg'], e['mkey'])
+                k = (cfg_sig(h.cfgs[e['cfg']]), e['args'], e['mkey'])
                 if k not in alone_builtin:
                     alone_builtin[k] = (e['text'], h.name)
                 expect = alone_builtin[k][0]
@@ -1013,7 +1066,7 @@ def main(chk: core.Check, replay: typing.Optional[str] = None) -> int:
                     stats['known_finding_instances'] += 1
                 else:
                     bad_oracle.append({'history': h.name, 'file_index': i, 'type': e['key'], 'lang': lang, 'expected': expect,
-                                       'got': e['text'], 'reference': alone_builtin.get((lang, e['ecfg'], e['mkey']), ('', 'alone oracle'))[1]
+                                       'got': e['text'], 'reference': alone_builtin.get((cfg_sig(h.cfgs[e['cfg']]), e['args'], e['mkey']), ('', 'alone oracle'))[1]
                                        if h.kind == 'builtin' else 'own script only', 'job': h.job()})
             # --- model vs. implementation
             if me is not None:
